@@ -67,6 +67,39 @@ def extend(ch):
 TREE = st.recursive(leaf(), extend, max_leaves=9)
 
 
+@st.composite
+def chain(draw):
+    """Operator chains `a op b op c op d` (2-4 operators, arithmetic and one optional comparison) built as left- or
+    right-nested trees: associativity and relative precedence are what decides their value."""
+    n = draw(st.integers(2, 4))
+    ops = [draw(st.sampled_from(["+", "-", "*", "/", "-", "/", "**"])) for _ in range(n)]
+    operands = [draw(leaf()) for _ in range(n + 1)]
+    if draw(st.booleans()):
+        i = draw(st.integers(0, n))
+        operands[i] = ("un", draw(st.sampled_from(["-", "+"])), operands[i])
+    shape = draw(st.sampled_from(["left", "left", "right", "mixed"]))
+    if shape == "left":
+        t = operands[0]
+        for op, b in zip(ops, operands[1:]):
+            t = ("bin", op, t, b)
+    elif shape == "right":
+        t = operands[-1]
+        for op, a in zip(reversed(ops), reversed(operands[:-1])):
+            t = ("bin", op, a, t)
+    else:
+        k = draw(st.integers(1, n))
+        left = operands[0]
+        for op, b in zip(ops[: k - 1], operands[1:k]):
+            left = ("bin", op, left, b)
+        right = operands[k]
+        for op, b in zip(ops[k:], operands[k + 1 :]):
+            right = ("bin", op, right, b)
+        t = ("bin", ops[k - 1], left, right)
+    if draw(st.integers(0, 3)) == 0:
+        t = ("bin", draw(st.sampled_from(CMP)), t, draw(leaf()))
+    return t
+
+
 def prec(t):
     if t[0] == "bin":
         return PY_PREC[t[1]]
@@ -223,7 +256,7 @@ def probe(v):
 
 @st.composite
 def case_strategy(draw):
-    t = draw(TREE)
+    t = draw(st.one_of(TREE, TREE, chain()))
     return {"tree": t, "layout_seed": draw(st.integers(0, 2**20)), "wrapper": draw(st.sampled_from(["probe", "I", "brace"])),
             "other": draw(st.one_of(st.none(), TREE))}
 
